@@ -26,8 +26,10 @@
     symbols.go                       via `SF.Symbols` (the key cache)
   The four templates are mirrored ONCE, parametric in the kind `PK` (15 instances each).
 
-  Not mirrored: user unfolders (unfold_user*.go), Expander, the unfolder registry cache
-  (`typeUnfoldRegistry`: memoisation of `buildReflUnfolder`, no behaviour).
+  Not mirrored: user unfolders (unfold_user*.go), Expander.  The unfolder registry
+  (`typeUnfoldRegistry`) is mirrored for NAMED types only (`Ctx.reg`): for all other types it is
+  pure memoisation of `buildReflUnfolder`; for named types it is what lets a type refer to
+  itself (`lazyReflUnfolder`, `RU.ref`).
 
   Memory: raw pointers are `Path`s into the target value tree, into `reflect.New` cells
   (`Ctx.cells`) or into the `valueBuffer` scratch slots.  Every pointer the Go code keeps is
@@ -60,10 +62,13 @@ def PK.goType : PK → GoType
   | .num k => .int k | .f32 => .float32 | .f64 => .float64
 
 /-- primitive kind of a Go type (`t.Kind()` switch arms of the lookup functions) -/
-def PK.ofType? : GoType → Option PK
+def PK.ofExact? : GoType → Option PK
   | .ifc => some .ifc | .bool => some .bool | .string => some .string
   | .int k => some (.num (normKind k)) | .float32 => some .f32 | .float64 => some .f64
   | _ => none
+
+/-- by `Kind()`: names are looked through -/
+def PK.ofType? (tbl : TypeTable) (t : GoType) : Option PK := PK.ofExact? (t.un tbl)
 
 /-- scalar events: OnNil, OnBool, OnString, the 11 integer events, OnFloat32/64 -/
 inductive Sc
@@ -128,9 +133,14 @@ inductive RU
   | map (et : GoType) (elem : RU)                         -- unfolderReflMap{waitKey, waitElem{elem}}
   | ptr (et : GoType) (elem : RU)                         -- unfolderReflPtr{elem}
   | struct (fields : List (Bytes × List Nat × RU))        -- unfolderStruct{fields}: key ↦ (offset, initState)
+  | ref (name : String)                                   -- lazyReflUnfolder: the registry entry of a named type
+                                                          -- that was still being built when it was looked up
   deriving Inhabited
 
 abbrev Fields := List (Bytes × List Nat × RU)
+
+/-- typeUnfoldRegistry, named types only -/
+abbrev Reg := List (String × RU)
 
 /-- the unfolder states that can be on `unfoldCtx.unfolder` -/
 inductive U
@@ -193,6 +203,9 @@ structure Ctx where
   -- memory
   target : GoVal := .invalid
   cells : Array GoVal := #[]                  -- reflect.New allocations
+  -- types
+  env : TypeTable := fun _ => none            -- the named types (stands for `reflect`)
+  reg : Reg := []                             -- unfoldCtx.reg
   /-- NOT part of the mirror of the current tree: `true` evaluates the code as it was BEFORE the
   repairs of findings U1/U2 (null array element kept the old slice element; `SetLen` within
   the capacity re-exposed stale elements; /repo 777bf43, 4cf81f7).  Kept so that the replays
@@ -325,9 +338,12 @@ def store (p : Ptr) (v : GoVal) : M Unit := fun c =>
       | none => .gap "store: stale root"
     | none => .gap "store: stale pointer"
 
+/-- reflect.Zero(t) -/
+def zeroM (t : GoType) : M GoVal := fun c => .ok (zero c.env t) c
+
 /-- reflect.New(t): a fresh zeroed cell -/
 def newCell (t : GoType) : M Ptr := fun c =>
-  .ok (some { root := .cell c.cells.size }) { c with cells := c.cells.push (zero t) }
+  .ok (some { root := .cell c.cells.size }) { c with cells := c.cells.push (zero c.env t) }
 
 /-- unfold.go arrPreallocLen (maxArrPrealloc = 1024) -/
 def maxArrPrealloc : Int := 1024
@@ -382,7 +398,7 @@ def arrStartOnArrayStart (k : PK) (l : Int) : M Unit := do
   | .sliceNil et =>
     if l > 0 then
       -- *to = make([]T, arrPreallocLen(l))
-      store to (.slice et (List.replicate (arrPreallocLen l).toNat (zero k.goType)) [])
+      store to (.slice et (List.replicate (arrPreallocLen l).toNat (← zeroM k.goType)) [])
     else pure ()           -- `l < len(*to)` is false for l = 0
   | .slice et es h =>
     if l < es.length then
@@ -570,9 +586,19 @@ def initStatePU (p : PUK) (ptr : Ptr) : M Unit :=
   | .arr k => arrInitState k ptr
   | .map k => mapInitState k ptr
 
-/-- reflUnfolder.initState -/
-def initStateRU (ru : RU) (v : Ptr) : M Unit :=
+/-- lazyReflUnfolder: forward to the unfolder the registry holds for the named type -/
+def resolveRU (ru : RU) : M RU := fun c =>
   match ru with
+  | .ref n => match c.reg.lookup n with
+    | some r => .ok r c
+    | none => .gap ("unregistered type " ++ n)
+  | r => .ok r c
+
+/-- reflUnfolder.initState -/
+def initStateRU (ru0 : RU) (v : Ptr) : M Unit := do
+  let ru ← resolveRU ru0
+  match ru with
+  | .ref n => modelGap ("registry entry of " ++ n ++ " is a placeholder")
   | .lifted p => initStatePU p v                      -- liftedReflUnfolder.initState
   | .slice et elem => do                              -- unfolderReflSlice.initState
     pushValue v
@@ -600,7 +626,7 @@ def reflSliceStartOnArrayStart (l : Int) : M Unit := do
   | .sliceNil et =>
     if l > 0 then
       let n := (arrPreallocLen l).toNat
-      store ptr (.slice et (List.replicate n (zero et)) [])      -- reflect.MakeSlice(t, n, n)
+      store ptr (.slice et (List.replicate n (← zeroM et)) [])      -- reflect.MakeSlice(t, n, n)
     else pure ()
   | .slice et es h =>
     if l < es.length then
@@ -631,8 +657,8 @@ def reflSlicePrepare : M Ptr := do
   if (es.length : Int) > idx then pure ()
   else
     match h with
-    | x :: h' => store ptr (.slice et (es ++ [if c.whatIfFixed then zero et else x]) h')   -- v.Cap() > idx: v.SetLen(idx+1); v.Index(idx).Set(Zero)
-    | [] => store ptr (.slice et (es ++ [zero et]) [])            -- reflect.Append(v, Zero) (or zeroed spare capacity)
+    | x :: h' => store ptr (.slice et (es ++ [if c.whatIfFixed then zero c.env et else x]) h')   -- v.Cap() > idx: v.SetLen(idx+1); v.Index(idx).Set(Zero)
+    | [] => store ptr (.slice et (es ++ [zero c.env et]) [])            -- reflect.Append(v, Zero) (or zeroed spare capacity)
   setCurrentIdx (idx + 1)
   match ptr with
   | some p => pure (some (p.push (.index idx.toNat)))
@@ -732,7 +758,7 @@ def onScalar : Nat → Sc → M Unit
       | .nil => do
         let e ← reflSlicePrepare                 -- unfolderReflSlice.OnNil: `u.prepare(ctx)`, then the element is zeroed
         let c ← getCtx
-        if c.whatIfFixed then (match u with | .reflSlice et _ => store e (zero et) | _ => pure ()) else pure ()
+        if c.whatIfFixed then (match u with | .reflSlice et _ => store e (zero c.env et) | _ => pure ()) else pure ()
       | _ => do
         let e ← reflSlicePrepare
         initStateRU elem e
@@ -742,7 +768,7 @@ def onScalar : Nat → Sc → M Unit
       | .nil => do
         -- m.SetMapIndex(key.pop(), reflect.Zero(elemType))
         let key ← popKey
-        reflMapSet key (zero et)
+        reflMapSet key (← zeroM et)
         setCurrentU (.reflMapOnKey et elem)
       | _ => do
         let e ← reflMapOnElemPrepare et
@@ -984,100 +1010,130 @@ def parseTags (tag : String) : String × TagOptions :=
 
 def strBytes (s : String) : Bytes := s.toUTF8.toList
 
-/-- ASCII `unicode.IsUpper` of the first rune (menagerie field names are ASCII) -/
+/-- unicode.IsUpper, ASCII and Latin-1 (field names of the type universe use nothing else) -/
+def isUpperRune (c : Char) : Bool :=
+  ('A' ≤ c && c ≤ 'Z') || (0xC0 ≤ c.toNat && c.toNat ≤ 0xDE && c.toNat != 0xD7)
+
+/-- `unicode.IsUpper` of the first rune -/
 def startsUpper (s : String) : Bool :=
   match s.toList with
-  | c :: _ => 'A' ≤ c && c ≤ 'Z'
+  | c :: _ => isUpperRune c
   | [] => false
 
-def toLowerAscii (s : String) : String := String.ofList (s.toList.map Char.toLower)
+/-- strings.ToLower (ASCII and Latin-1) -/
+def toLowerAscii (s : String) : String :=
+  String.ofList (s.toList.map fun c => if isUpperRune c then Char.ofNat (c.toNat + 32) else c)
 
 /-- lookupGoPtrUnfolder(t): the fast path for fields of primitive kind, slices and
-string-keyed maps of primitive kind -/
-def lookupGoPtrUnfolder (t : GoType) : Option PUK :=
-  match t with
-  | .slice e => (PK.ofType? e).map .arr
-  | .map e => (PK.ofType? e).map .map
-  | _ => (PK.ofType? t).map .prim
+string-keyed maps of primitive kind — by `Kind()`, so named types take it too -/
+def lookupGoPtrUnfolder (tbl : TypeTable) (t : GoType) : Option PUK :=
+  match t.un tbl with
+  | .slice e => (PK.ofType? tbl e).map .arr
+  | .map e => (PK.ofType? tbl e).map .map
+  | u => (PK.ofExact? u).map .prim
 
-/-- lookupGoTypeUnfolder(to): the type switch over the 45 pointer types — the same table -/
-def lookupGoTypeUnfolder (t : GoType) : Option PUK := lookupGoPtrUnfolder t
+/-- lookupGoTypeUnfolder(to): the type switch over the 45 unnamed pointer types `*T`, `*[]T`,
+`*map[string]T`; a named type does not match (and reaches the same unfolder through
+buildReflUnfolder) -/
+def lookupGoTypeUnfolder (t : GoType) : Option PUK :=
+  match t with
+  | .slice e => (PK.ofExact? e).map .arr
+  | .map e => (PK.ofExact? e).map .map
+  | _ => (PK.ofExact? t).map .prim
 
 mutual
-/-- buildReflUnfolder(ctx, PtrTo(t)) (through lookupReflUnfolder; no user unfolders, no
-Expander in this universe) -/
-def buildReflUnfolder : Nat → GoType → Except Err RU
-  | 0, _ => .error .unsupported
-  | fuel + 1, t =>
+/-- lookupReflUnfolder(ctx, PtrTo(t)) (no user unfolders, no Expander in this universe): the
+registry first — for a named type that is being built (`open_`) it holds the placeholder
+`lazyReflUnfolder` — then buildReflUnfolder, whose result is registered. -/
+def lookupReflUnfolder (tbl : TypeTable) : Nat → List String → Reg → GoType → Except Err (RU × Reg)
+  | 0, _, _, _ => .error .unsupported
+  | fuel + 1, open_, reg, t =>
+    match t.typeName? with
+    | some n =>
+      if open_.contains n then .ok (.ref n, reg) else
+      match reg.lookup n with
+      | some ru => .ok (ru, reg)
+      | none =>
+        match buildReflUnfolder tbl fuel (n :: open_) reg (t.un tbl) with
+        | .error e => .error e
+        | .ok (ru, reg') => .ok (ru, (n, ru) :: reg')
+    | none => buildReflUnfolder tbl fuel open_ reg t
+/-- buildReflUnfolder(ctx, PtrTo(t)): the switch over `t.Kind()` (`t` with names stripped) -/
+def buildReflUnfolder (tbl : TypeTable) : Nat → List String → Reg → GoType → Except Err (RU × Reg)
+  | 0, _, _, _ => .error .unsupported
+  | fuel + 1, open_, reg, t =>
     match t with
     | .ifc | .bool | .string | .int _ | .float32 | .float64 =>
-      match PK.ofType? t with
-      | some k => .ok (.lifted (.prim k))                  -- unfolderReflX
+      match PK.ofExact? t with
+      | some k => .ok (.lifted (.prim k), reg)             -- unfolderReflX
       | none => .error .unsupported
     | .array _ _ => .error .unsupported
-    | .ptr e => (buildReflUnfolder fuel e).map (.ptr e)
+    | .other _ => .error .unsupported
+    | .ptr e => (lookupReflUnfolder tbl fuel open_ reg e).map fun (ru, r) => (.ptr e ru, r)
     | .slice e =>
-      match PK.ofType? e with
-      | some k => .ok (.lifted (.arr k))                   -- unfolderReflArrX
-      | none => (buildReflUnfolder fuel e).map (.slice e)
+      match PK.ofType? tbl e with
+      | some k => .ok (.lifted (.arr k), reg)              -- unfolderReflArrX
+      | none => (lookupReflUnfolder tbl fuel open_ reg e).map fun (ru, r) => (.slice e ru, r)
     | .imap _ => .error .mapRequiresStringKey
     | .map e =>
-      match PK.ofType? e with
-      | some k => .ok (.lifted (.map k))                   -- unfolderReflMapX
-      | none => (buildReflUnfolder fuel e).map (.map e)
-    | .struct _ fs => (fieldUnfolders fuel fs 0 []).map .struct      -- createUnfolderReflStruct
+      match PK.ofType? tbl e with
+      | some k => .ok (.lifted (.map k), reg)              -- unfolderReflMapX
+      | none => (lookupReflUnfolder tbl fuel open_ reg e).map fun (ru, r) => (.map e ru, r)
+    | .struct _ fs =>                                      -- createUnfolderReflStruct
+      (fieldUnfolders tbl fuel open_ reg fs 0 []).map fun (fields, r) => (.struct fields, r)
+    | .named _ _ | .ref _ => .error .unsupported           -- not reachable: names are stripped
 /-- fieldUnfolders: field `i` of the remaining list is field index `base` of the struct -/
-def fieldUnfolders : Nat → List (String × String × GoType) → Nat → Fields → Except Err Fields
-  | 0, _, _, _ => .error .unsupported
-  | _ + 1, [], _, acc => .ok acc
-  | fuel + 1, (name, tag, t) :: rest, i, acc =>
-    if !startsUpper name then fieldUnfolders fuel rest (i + 1) acc else
+def fieldUnfolders (tbl : TypeTable) : Nat → List String → Reg → List (String × String × GoType) → Nat → Fields →
+    Except Err (Fields × Reg)
+  | 0, _, _, _, _, _ => .error .unsupported
+  | _ + 1, _, reg, [], _, acc => .ok (acc, reg)
+  | fuel + 1, open_, reg, (name, tag, t) :: rest, i, acc =>
+    if !startsUpper name then fieldUnfolders tbl fuel open_ reg rest (i + 1) acc else
     let (tagName, opts) := parseTags tag
-    if opts.omitF then fieldUnfolders fuel rest (i + 1) acc else
+    if opts.omitF then fieldUnfolders tbl fuel open_ reg rest (i + 1) acc else
     if opts.squash then
-      match t with
+      match t.un tbl with                                  -- st.Type.Kind() != reflect.Struct
       | .struct _ sfs =>
-        match fieldUnfolders fuel sfs 0 [] with
+        match fieldUnfolders tbl fuel open_ reg sfs 0 [] with
         | .error e => .error e
-        | .ok sub =>
+        | .ok (sub, reg') =>
           -- fu.offset += st.Offset; duplicate names are an error
           if sub.any fun (n, _, _) => acc.any (·.1 == n) then .error .duplicateField else
-          fieldUnfolders fuel rest (i + 1) (acc ++ sub.map fun (n, off, ru) => (n, i :: off, ru))
+          fieldUnfolders tbl fuel open_ reg' rest (i + 1) (acc ++ sub.map fun (n, off, ru) => (n, i :: off, ru))
       | _ => .error .squashNeedObject
     else
       let n := strBytes (if tagName != "" then tagName else toLowerAscii name)
       if acc.any (·.1 == n) then .error .duplicateField else
       -- makeFieldUnfolder
-      match lookupGoPtrUnfolder t with
-      | some pu => fieldUnfolders fuel rest (i + 1) (acc ++ [(n, [i], .lifted pu)])
+      match lookupGoPtrUnfolder tbl t with
+      | some pu => fieldUnfolders tbl fuel open_ reg rest (i + 1) (acc ++ [(n, [i], .lifted pu)])
       | none =>
-        match buildReflUnfolder fuel t with
+        match lookupReflUnfolder tbl fuel open_ reg t with
         | .error e => .error e
-        | .ok ru => fieldUnfolders fuel rest (i + 1) (acc ++ [(n, [i], ru)])
+        | .ok (ru, reg') => fieldUnfolders tbl fuel open_ reg' rest (i + 1) (acc ++ [(n, [i], ru)])
 end
 
 /-- nesting depth of a descriptor: bounds the forwarding recursion of one event -/
 def typeFuel : Nat := 256
 
 /-- Unfolder.SetTarget(&target) for a target variable of type `t` holding `v`
-(`to == nil` is `reset`) -/
-def setTarget (t : GoType) (v : GoVal) (c : Ctx) : Except Err Ctx :=
-  let c := { c with target := v }
-  let run (m : M Unit) : Except Err Ctx :=
+(`to == nil` is `reset`); `tbl` = the named types -/
+def setTarget (tbl : TypeTable) (t : GoType) (v : GoVal) (c : Ctx) : Except Err Ctx :=
+  let c := { c with target := v, env := tbl }
+  let run (c : Ctx) (m : M Unit) : Except Err Ctx :=
     match m c with
     | .ok _ c' => .ok c'
     | _ => .error .unsupported
   match lookupGoTypeUnfolder t with
-  | some pu => run (initStatePU pu (some { root := .target }))
+  | some pu => run c (initStatePU pu (some { root := .target }))
   | none =>
-    match buildReflUnfolder typeFuel t with
-    | .error e => .error e
-    | .ok ru => run (initStateRU ru (some { root := .target }))
+    match lookupReflUnfolder tbl typeFuel [] c.reg t with
+    | .error e => .error e                                -- (ctx.reg.reset(): not observable)
+    | .ok (ru, reg) => run { c with reg := reg } (initStateRU ru (some { root := .target }))
 
 /-- SetTarget(nil) / Reset: reinitialise the stacks, `valueBuffer.reset()`; the key cache
-and its contents survive.  The `reflect.New` cells of the abandoned document are garbage:
-the only pointers to them lived on the stacks just cleared (stored values hold their pointees
-inline), so the model drops them. -/
+and its contents survive, and so does the type registry (`reg`).  The `reflect.New` cells of an
+abandoned document are unreachable afterwards. -/
 def reset (c : Ctx) : Ctx :=
   { c with
     unfolder := Stk.init .noTarget, value := Stk.init none, ptr := Stk.init none,
